@@ -400,16 +400,25 @@ class AoefSim:
         # (no document oracle here: the text of an in-memory document would
         # be the harness's dump of it, not something `save` wrote)
 
-    def inside_refused(self, node, src, audio, reply, type_name, n):
+    def inside_refused(self, node, src, audio, reply, type_name, n, save_like=None):
         """A save with an audio directory raised although no fault fired and
         every recording lies inside that directory. If the same object is
-        written without an audio directory, the directory is what made it
-        fail: saving with an audio directory must store relative paths, and
+        written the same way without an audio directory, the directory is
+        what made it fail: saving with an audio directory must store relative paths, and
         may fail only for a recording outside it (C18)."""
         if audio is None or not self.active("C18"):
             return
-        probe = node.call("mem_save", src=src, doc="__inside_refused_probe",
-                          audio_dir=None, _env=self.env(None, n))
+        if save_like is not None:
+            # like for like: the same call (same entry point, same spelling of
+            # the target) to a scratch file nobody else looks at, so a save
+            # that fails for a reason of its own fails here as well
+            scratch = os.path.join(self.run_dir, "__probe", "probe.json")
+            probe = node.call("save", src=src, path=scratch, audio_dir=None,
+                              _env=self.env(None, n), **save_like)
+            shutil.rmtree(os.path.dirname(scratch), ignore_errors=True)
+        else:
+            probe = node.call("mem_save", src=src, doc="__inside_refused_probe",
+                              audio_dir=None, _env=self.env(None, n))
         self.probes.hit("C18:refused-save-retried-without-audio-dir")
         if probe["outcome"] == "ack":
             self.violate(
@@ -712,7 +721,11 @@ class AoefSim:
                 self.files[p] = (
                     entry_before if before == after else {"status": "torn"}
                 )
-                self.inside_refused(node, src, audio, reply, described["type"], n)
+                self.inside_refused(
+                    node, src, audio, reply, described["type"], n,
+                    save_like={"path_as": op.get("path_as", "str"),
+                               "api": op.get("api", "io")},
+                )
                 self.violate(
                     "C01",
                     f"C01:save-raised:{reply['exc']}",
